@@ -722,10 +722,77 @@ def peek_nonstrict(ctx, rep, rid, fname, what):
     rep.ob(rid, fn, 'no-short-circuiting-search', not short, '%s' % short)
 
 
+def is_search_result(e):
+    """a local that is None until the search hits: every alternative is an Option aggregate"""
+    e = unload(e)
+    return isinstance(e, tuple) and e and e[0] == 'phi' and len(e[1]) >= 2 and all(isinstance(a, tuple) and a and a[0] == 'agg' and a[1].endswith('Option') for a in e[1])
+
+
+def second_search_rule(ctx, rep, rid, ds, helpers):
+    """at most one slot is consumed per call: the second search (server side) runs only when the first found nothing"""
+    prog, an = ctx.prog, ctx.an
+    da = an.get(ds)
+    pfd = an.paths(ds, history=True)
+    searches = []
+    for g in helpers:
+        for (b, f, a, t) in calls(da):
+            if callee_key(f) == g.key:
+                searches.append(b)
+    if helpers:
+        rep.ob(rid, ds, 'two-searches', len(searches) == 2, 'searches through a helper: %d' % len(searches))
+        searches.sort(key=lambda b: 0 if all(da.cfg.can_reach(b, o) for o in searches) else 1)
+        if len(searches) == 2:
+            second = searches[1]
+            okg, w = all_paths(pfd.at_entry(second), lambda S: any((f2[0] == 'variant' and f2[2] == 'None') or (f2[0] == 'bcall' and f2[1].endswith('is_none') and f2[3] is True) or
+                                                                    (f2[0] == 'bcall' and f2[1].endswith('is_some') and f2[3] is False) for f2 in S))
+            rep.ob(rid, ds, 'second-search-only-if-first-found-nothing', okg and bool(pfd.at_entry(second)), 'the server slots are searched (and possibly consumed) only when nothing was due on the client side')
+    else:
+        # inline form: the server loop is entered only when the client loop found nothing
+        clear_loops = []
+        next_of = {}
+        for (kind, pe, site) in clearing_sites(da):
+            nxc = [x for x in walk(pe) if isinstance(x, tuple) and x and x[0] == 'call' and len(x) > 3 and x[3] is not None and (x[1].endswith('Iterator>::next') or x[1].endswith('Iterator::next'))]
+            if nxc:
+                clear_loops.append(nxc[0][3][0])
+                next_of[nxc[0][3][0]] = strip_sites(nxc[0])
+        if len(clear_loops) == 2:
+            a_, b_ = clear_loops
+            first, second = (a_, b_) if da.cfg.can_reach(a_, b_) else (b_, a_)
+            nx1 = next_of.get(first)
+            # "found nothing": an explicit is_none / None test of the search result, or (when the search result was threaded into
+            # the control flow) the first search ran to exhaustion on every path that reaches the second
+            okg, w = all_paths(pfd.at_entry(second), lambda S: any((f2[0] == 'bcall' and f2[1].endswith('is_none') and f2[3] is True) or
+                                                                    (f2[0] == 'variant' and f2[2] == 'None' and not contains(f2[1], lambda y: is_call(y, 'Iterator>::next'))) or
+                                                                    (f2[0] == 'variant' and f2[2] == 'None' and is_call(unload(f2[1]), 'Option::<T>::take')) or
+                                                                    (f2[0] == 'variant' and f2[2] == 'None' and is_search_result(f2[1])) or
+                                                                    (f2[0] == 'variant' and f2[2] == 'None' and nx1 is not None and f2[1] == nx1) for f2 in S))
+            rep.ob(rid, ds, 'second-search-only-if-first-found-nothing', okg and bool(pfd.at_entry(second)), '')
+        else:
+            rep.ob(rid, ds, 'second-search-only-if-first-found-nothing', False, 'expected two search loops with a clearing site, found %d' % len(clear_loops))
+
+
+
+def action_loop_rule(ctx, rep, rid, tu, fa, h, body):
+    """every action the framework returned is handled: the loop over the actions is left only when the iterator is exhausted
+    (a return / break in one arm drops the actions of the machines that follow)"""
+    pf = ctx.an.paths(tu, history=True, entry=h)
+    n = 0
+    for x in sorted(body):
+        for (y, lab) in fa.cfg.succ[x]:
+            if y in body:
+                continue
+            for S in pf.on_edge(x, y, lab):
+                n += 1
+                ok = any(f[0] == 'variant' and f[2] == 'None' and (is_call(unload(f[1]), 'Iterator>::next') or is_call(unload(f[1]), 'Iterator::next')) for f in S)
+                rep.ob(rid, tu, 'action-loop-left-only-when-exhausted', ok, '' if ok else 'the loop over the returned actions is left early: ' + show_facts(S))
+    rep.count_floor(rid, 'exits of the action loop in trigger_update', n, 1)
+
+
 def check_C17(ctx, rep):
     prog, an = ctx.prog, ctx.an
     rep.rule('C17.R1', 'trigger_update: for SendPadding and BlockOutgoing the slot scheduled_action[machine.into_raw()] is overwritten on every path '
-             'through the arm with Some(ScheduledAction{action: clone of that action, time: current_time + timeout + trigger_delay})')
+             'through the arm with Some(ScheduledAction{action: clone of that action, time: current_time + timeout + trigger_delay}); the loop '
+             'over the returned actions is left only when the iterator is exhausted (no arm drops the actions of later machines)')
     rep.rule('C17.R2', 'Cancel table, exhaustive over Timer: Action clears only the action slot, Internal only the internal slot, All both — '
              'always the slot of the cancelling machine')
     rep.rule('C17.R3', 'do_scheduled_action: the slot found is cleared on the same path and the search stops there (fires once); the event carries '
@@ -745,6 +812,7 @@ def check_C17(ctx, rep):
     body = loops[h]
     sa_stores = field_stores(fa, 'scheduled_action', 'SimState')
     it_stores = field_stores(fa, 'scheduled_internal_timer', 'SimState')
+    action_loop_rule(ctx, rep, 'C17.R1', tu, fa, h, body)
     for var in ('SendPadding', 'BlockOutgoing'):
         if var not in arms:
             rep.ob('C17.R1', tu, 'arm-present:' + var, False, '')
@@ -886,42 +954,7 @@ def check_C17(ctx, rep):
             st = pfi.at(site[0], site[1]) if site[1] is not None else pfi.at_entry(site[0])
             okm, w = all_paths(st, lambda S: due_fact(ctx, S, lambda l: is_field(l, 'time', 'ScheduledAction'), lambda r: r[0] == 'param' and r[1] in inst))
             rep.ob('C17.R3', sf, 'cleared-slot-is-the-due-one', okm and bool(st), 'slot cleared only when its time equals the target')
-    # at most one slot is consumed per call: a second search (server side) runs only when the first found nothing
-    pfd = an.paths(ds, history=True)
-    searches = []
-    for g in helpers:
-        for (b, f, a, t) in calls(da):
-            if callee_key(f) == g.key:
-                searches.append(b)
-    if helpers:
-        rep.ob('C17.R3', ds, 'two-searches', len(searches) == 2, 'searches through a helper: %d' % len(searches))
-        searches.sort(key=lambda b: 0 if all(da.cfg.can_reach(b, o) for o in searches) else 1)
-        if len(searches) == 2:
-            second = searches[1]
-            okg, w = all_paths(pfd.at_entry(second), lambda S: any((f2[0] == 'variant' and f2[2] == 'None') or (f2[0] == 'bcall' and f2[1].endswith('is_none') and f2[3] is True) or
-                                                                    (f2[0] == 'bcall' and f2[1].endswith('is_some') and f2[3] is False) for f2 in S))
-            rep.ob('C17.R3', ds, 'second-search-only-if-first-found-nothing', okg and bool(pfd.at_entry(second)), 'the server slots are searched (and possibly consumed) only when no client action was due')
-    else:
-        # inline form: the server loop is entered only when the client loop found nothing
-        loops_ = da.cfg.loops()
-        clear_loops = []
-        next_of = {}
-        for (kind, pe, site) in clearing_sites(da):
-            nxc = [x for x in walk(pe) if isinstance(x, tuple) and x and x[0] == 'call' and len(x) > 3 and x[3] is not None and (x[1].endswith('Iterator>::next') or x[1].endswith('Iterator::next'))]
-            if nxc:
-                clear_loops.append(nxc[0][3][0])
-                next_of[nxc[0][3][0]] = strip_sites(nxc[0])
-        if len(clear_loops) == 2:
-            a_, b_ = clear_loops
-            first, second = (a_, b_) if da.cfg.can_reach(a_, b_) else (b_, a_)
-            nx1 = next_of.get(first)
-            # "found nothing": an explicit is_none / None test of the search result, or (when the search result was threaded into
-            # the control flow) the first search ran to exhaustion on every path that reaches the second
-            okg, w = all_paths(pfd.at_entry(second), lambda S: any((f2[0] == 'bcall' and f2[1].endswith('is_none') and f2[3] is True) or
-                                                                    (f2[0] == 'variant' and f2[2] == 'None' and not contains(f2[1], lambda y: is_call(y, 'Iterator>::next'))) or
-                                                                    (f2[0] == 'variant' and f2[2] == 'None' and is_call(unload(f2[1]), 'Option::<T>::take')) or
-                                                                    (f2[0] == 'variant' and f2[2] == 'None' and nx1 is not None and f2[1] == nx1) for f2 in S))
-            rep.ob('C17.R3', ds, 'second-search-only-if-first-found-nothing', okg and bool(pfd.at_entry(second)), '')
+    second_search_rule(ctx, rep, 'C17.R3', ds, helpers)
     rep.count_exact('C17.R3', 'slot clearing sites in do_scheduled_action', n_clear, 2)
     for (site, evn, evf, flds, ln) in sim_events(da):
         if evn == 'PaddingSent':
@@ -1008,9 +1041,11 @@ def check_timer_helper(ctx, rep, tu, fa, pf, h, body, arms, helper_calls):
 def check_C18(ctx, rep):
     prog, an = ctx.prog, ctx.an
     rep.rule('C18.R1', 'UpdateTimer arm of trigger_update: the slot store (current_time + duration, for the action\'s machine) and the push of '
-             'TimerBegin{machine} at current_time for that side occur on exactly the same paths')
+             'TimerBegin{machine} at current_time for that side occur on exactly the same paths; the loop over the returned actions is left '
+             'only when the iterator is exhausted')
     rep.rule('C18.R2', 'do_internal_timer clears the matching slot, stops searching, and builds TimerEnd{machine = from_raw(slot index)} at the '
-             'target; TimerEnd/TimerBegin are built nowhere else')
+             'target; the server slots are searched (and a slot consumed) only when nothing was due on the client side; TimerEnd/TimerBegin '
+             'are built nowhere else')
     rep.rule('C18.R3', 'the timer is (re)started on every path through the arm on which replace is true, or no timer is running, or the running '
              'expiry is earlier than current_time + duration')
     rep.rule('C18.R4', 'peek_scheduled_internal_timer treats a timer due exactly at current_time as eligible (non-strict comparison), both sides')
@@ -1025,6 +1060,7 @@ def check_C18(ctx, rep):
     hs = [h for h, body in loops.items() if swb in body]
     h = hs[0]
     body = loops[h]
+    action_loop_rule(ctx, rep, 'C18.R1', tu, fa, h, body)
     rs = lambda pe, val: in_field(pe, 'scheduled_internal_timer', 'SimState')
     rc = lambda f: callee_str(f).endswith('SimQueue::push_sim')
     pf = an.paths(tu, history=True, record_stores=rs, record_calls=rc, tag='timer', entry=h)
@@ -1053,7 +1089,7 @@ def check_C18(ctx, rep):
             rep.ob('C18.R1', tu, 'store-and-TimerBegin-on-same-paths', bool(st) == bool(pushed), 'slot stored: %s, TimerBegin pushed: %s' % (bool(st), bool(pushed)))
             # R3
             replace = any(f[0] == 'btrue' and f[2] is True and action_field(f[1], 'UpdateTimer', 'replace') for f in S)
-            no_timer = any(f[0] == 'variant' and f[2] == 'None' and is_field(f[1], 'scheduled_internal_timer', 'SimState') for f in S)
+            no_timer = any(f[0] == 'variant' and f[2] == 'None' and in_field(f[1], 'scheduled_internal_timer', 'SimState') for f in S)
 
             def is_new_expiry(e):
                 return contains(e, lambda y: y == ('param', 3)) and contains(e, lambda y: action_field(y, 'UpdateTimer', 'duration'))
@@ -1074,8 +1110,8 @@ def check_C18(ctx, rep):
                 return False
             later = later or cmp_in_value('Lt')
             # comparison table: the running expiry is compared strictly (an equal expiry is not "later")
-            nonstrict = any(f[0] == 'cmp' and f[1] == 'le' and ((is_running(f[2]) and is_new_expiry(f[3])) or (is_new_expiry(f[2]) and is_running(f[3]))) and
-                            ((f[5] is True and is_running(f[2])) or (f[5] is False and is_new_expiry(f[2]))) for f in S)
+            nonstrict = any(f[0] == 'cmp' and f[1] == 'le' and f[5] is True and is_running(f[2]) and is_new_expiry(f[3]) for f in S) or \
+                any(f[0] == 'cmp' and f[1] == 'lt' and f[5] is False and is_new_expiry(f[2]) and is_running(f[3]) for f in S)
             nonstrict = nonstrict or cmp_in_value('Le')
             if st and not replace and not no_timer:
                 rep.ob('C18.R3', tu, 'restart-needs-strictly-later-expiry', later and not nonstrict, 'a non-replacing update restarts a running timer only when running < new expiry' + ('' if (later and not nonstrict) else ': ' + show_facts(S)))
@@ -1146,6 +1182,7 @@ def check_C18(ctx, rep):
             if callee_key(f) == g.key:
                 okh = any(contains(x, lambda y: isinstance(y, tuple) and y and y[0] == 'fld' and y[3] == 'scheduled_internal_timer') for x in a) and any(x == ('param', 3) for x in a)
                 rep.ob('C18.R2', di, 'helper-searches-timer-slots-for-target', okh, '%s(%s)' % (g.name, ', '.join(show(x)[:40] for x in a)))
+    second_search_rule(ctx, rep, 'C18.R2', di, helpers)
     rep.count_exact('C18.R2', 'slot clearing sites in do_internal_timer', n_clear, 2)
     for (site, evn, evf, flds, ln) in sim_events(da):
         if evn == 'TimerEnd':
